@@ -131,6 +131,19 @@ PROPS['C10'] = _board('C10', ['C10'],
     'the real UCI driver is fed position / ucinewgame lines in GUI form, synchronised by isready: scripted extension, verbatim repetition, shortening, new game, FEN textual-prefix cases, threefold by repeated moves; random games sent as growing move lists with repeats, shortenings and ucinewgame, from startpos and random FENs.',
     'After every line the engine FEN, history length, repetition count of the current position, result and clocks are compared with the model (Model/Engine.v cmd_position) and with the game the line describes, built from the line alone on the specification game (EngineSpec.setup).')
 
+PROPS['C17'] = _board('C17', ['C17'],
+    'sequential: random Read/Write/Used sequences on tables of 1..128 slots with few hashes per slot (replacement, refusal, hash mismatch, uint16 wrap of ply/depth); concurrent: 30 (quick) / 600 (thorough) rounds of 2-7 goroutines x 200-1000 operations on 1..128-slot tables with self-describing payloads, run from a harness binary built with -race.',
+    'Sequential Read/Write/Used compared with the model table (Model/TT.v) operation by operation; every hit must be a tuple one single earlier store for that hash wrote; fill counter = occupied slots. Concurrent: every hit explained by one (writer, sequence) payload, fraction within [0,1], counter = occupied slots after the join, and the Go race detector must stay silent.')
+PROPS['C17'].update({
+    'stress': ['C17'],
+    'coq_targets': ['Properties/C17.vo', 'Impl/ImplBoard.vo'],
+    'obligation_files': ['Properties/C17.v', 'Impl/ImplBoard.v'],
+    'level': 'proof',
+    'level_text': 'Proof on the micro-step semantics (atomic load / CAS / atomic counter increment) for any number of threads, any programs and any schedule: a hit returns the tuple of one single store for that hash (the j-th output answers the j-th Read); a CAS only replaces an entry of no greater replacement value; used + pending increments = occupied slots always, used = occupied when quiescent, 0 <= used <= slots; no two enabled steps of different threads conflict (Go memory-model definition); nodes immutable; a single thread refines the sequential table the searches use. The plain t.used++ as found is refuted (lost update, race) and repaired by a fix: commit. Sequential model compared with Go operation by operation; concurrent stress under the race detector.',
+    'level_note': 'Trusted: Go s sync/atomic and unsafe.Pointer give the sequentially consistent single steps the model has; allocation is private until published by a CAS (alloc_is_private). The engine-level scenario (halted search still unwinding while its successor runs) is exercised under C16/C18.',
+    'assumptions': ['table has at least one slot (size >= 32 bytes; smaller sizes shift by a negative amount in NewTranspositionTable and are outside the domain)'],
+})
+
 # Every listed property is claimed; reasons would go here otherwise.
 NOT_APPLICABLE = [
     {'property_id': pid, 'reason': 'check not built yet in this session (work in progress; see DESIGN.md section 9)'}
